@@ -56,6 +56,23 @@ def one_trace(tid, n, L, plus, rng, iters, root: Path, integer_terminals: bool, 
     nrm = int(rm.number_of_regret_minimizers)
     rm_nodes = [r2i[r] for r in range(min(nrm, len(r2i)))]
     prev_reg = np.array(rm.cumulative_regret, dtype=np.float64)
+    # "after any number of iterations" includes none: the strategies of a fresh minimiser (uniform over what is not yet revealed; the
+    # average strategy of a node that was never reached takes a separate branch of the code)
+    try:
+        fresh = [rm_nodes[0]] + (rm_nodes[1:] if len(rm_nodes) <= max_nodes else rng.sample(rm_nodes[1:], max_nodes - 1)) if rm_nodes else []
+        for nid in fresh:
+            rank = int(rm.meta_id_to_rank[nid])
+            cur, cn = q(rm.regret_matching_strategy(int(nid)))
+            members = [Coalition(viable[i]) for i in range(c) if nid >> i & 1]
+            rng.shuffle(members)
+            avg, an = q(rm.get_average_strategy(iter(members)))
+            reg, _ = q(prev_reg[rank])
+            ev0["nodes"].append({"id": int(nid), "cur": cur, "cur_nan": cn, "avg": avg, "avg_nan": an, "reg": reg, "dreg": [0] * len(reg),
+                                 "pre_cur": cur, "has_pre": 0})
+        if not np.array_equal(np.array(rm.cumulative_regret, dtype=np.float64), prev_reg, equal_nan=True):
+            ev0["saveload"] = 0
+    except Exception as ex:  # noqa: BLE001
+        ev0["exc"] = type(ex).__name__
     for it in range(iters):
         ev = {"kind": "iterate", "exc": "", "nodes": [], "leaf_ids": [], "leaf_vals": [], "saveload": -1}
         vals = [float(rng.randint(0, 4)) if integer_terminals else rng.randint(0, 32) / 8.0 for _ in leaves]
